@@ -197,7 +197,7 @@ def child_params(c, mode, pre, shift=0, atom=False):
         names = [x[0] for x in out]
         ren = dict(zip(names, reversed(names)))
         out = [(ren[n], l, f) for n, l, f in out]
-        mapping = {k: ren[v] for k, v in mapping.items()}
+        mapping = {k: ren[v] for k, v in reversed(list(mapping.items()))}  # ... and the dictionary lists the parent's statistics backwards
     if "track" in mode and not atom and len(out) < 2:
         used = {x[1] for x in out}
         l = next((a for a in reversed(c.alphabet) if a not in used), c.alphabet[-1])  # preferably independent of the others
